@@ -177,3 +177,5 @@ ben("c18-discontinuity-minmax-order", "C18", "ic/_discontinuities.py", "lower_li
 mut("c11-wave-guard-maximum", "C11", "stepper/_wave.py", "        k_guard = jnp.where(self.wavenumber_norm == 0, 1.0, self.wavenumber_norm)\n        w_hat", "        k_guard = jnp.maximum(self.wavenumber_norm, 1.0)\n        w_hat", "zero guard that also clips scaled wavenumbers below 1 (L > 2 pi) (seeded S32)")
 ben("c01-wave-guard-greater", "C01", "stepper/_wave.py", "jnp.where(self.wavenumber_norm == 0, 1.0, self.wavenumber_norm)", "jnp.where(self.wavenumber_norm > 0, self.wavenumber_norm, 1.0)", "the norm is non-negative: > 0 is the complement of == 0", count=2)
 ben("c11-wave-guard-greater", "C11", "stepper/_wave.py", "jnp.where(self.wavenumber_norm == 0, 1.0, self.wavenumber_norm)", "jnp.where(self.wavenumber_norm > 0, self.wavenumber_norm, 1.0)", "the norm is non-negative: > 0 is the complement of == 0", count=2)
+mut("c06-special-branch-differs", "C06", "stepper/generic/_vorticity_convection.py", "            return VorticityConvection2d(\n                self.num_spatial_dims,\n                self.num_points,\n                convection_scale=self.vorticity_convection_scale,", "            return VorticityConvection2d(\n                self.num_spatial_dims,\n                self.num_points,\n                convection_scale=1.0,", "the injection_scale == 0 special case builds another stepper than the general branch at 0 (cf. seeded S29)")
+ben("c06-special-branch-swapped", "C06", "stepper/generic/_vorticity_convection.py", "            isinstance(self.injection_scale, (int, float))\n            and self.injection_scale == 0.0\n        ):", "            isinstance(self.injection_scale, (int, float))\n            and 0.0 == self.injection_scale\n        ):", "comparison written the other way round")
